@@ -309,6 +309,7 @@ func evaluate(r *rep.Reporter, c *rep.Case, sc *scenario, res runResult, lg *mx.
 		r.Count("attempts", int64(len(atts)))
 		r.Count("retries_observed", int64(v.Retries))
 		r.Count("premature_reports_not_judged", int64(v.Premature))
+		r.Count("suppressed_gave_up_with_tries_left_not_judged", int64(v.SuppressedEarly))
 		r.Count("reports_for_null_sender_not_judged", int64(v.ReportsForNull))
 		r.Count("report_names_unmatched", int64(v.ForeignReportNames))
 		for _, a := range atts {
